@@ -39,6 +39,7 @@ func loadKnownFindings() []KnownFinding {
 // propertyPlan describes what a property check verifies.
 type propertyPlan struct {
 	GenToolsOnly bool // only the freshly built tools are needed, not the regenerated overlay
+	GenServers   bool // the regenerated packages are loaded next to Pkgs for the server-registration scan only
 	Gen          bool // needs regenerated code (plugin run on the repository's descriptors)
 	ID           string
 	Level        string // proof | other
@@ -134,7 +135,17 @@ func runCheck(id, tier string, seed int, overlay map[string][]byte, quiet bool) 
 		var gerr error
 		gen, gerr = PrepareGen(id)
 		defer gen.Close()
-		if gerr == nil && gen != nil && !plan.GenToolsOnly {
+		if gerr == nil && gen != nil && plan.GenServers {
+			if overlay == nil {
+				overlay = map[string][]byte{}
+			}
+			for k, v := range gen.Overlay {
+				if _, mutated := overlay[k]; !mutated {
+					overlay[k] = v
+				}
+			}
+			pkgs = append(append([]string{}, pkgs...), gen.Pkgs...)
+		} else if gerr == nil && gen != nil && !plan.GenToolsOnly {
 			if overlay == nil {
 				overlay = map[string][]byte{}
 			}
@@ -151,6 +162,7 @@ func runCheck(id, tier string, seed int, overlay map[string][]byte, quiet bool) 
 			}
 		}
 	}
+	var thoroughRuns []*harnessResult
 	curGen = gen
 	ExtraSpecFiles = extraSpecs
 	s, err := NewSession(pkgs, timeout, seed, tier == "thorough", overlay)
@@ -189,11 +201,18 @@ func runCheck(id, tier string, seed int, overlay map[string][]byte, quiet bool) 
 	}
 	results := s.VerifyNamed(names)
 	results = append(results, s.VerifyLemmas(func(l *Lemma) bool { return tagsHaveProp(l.Tags, id) })...)
-	if gen != nil && !plan.GenToolsOnly {
+	if gen != nil && !plan.GenToolsOnly && !plan.GenServers {
 		results = append(results, gen.Results...)
 	}
 	if plan.Extra != nil {
 		results = append(results, plan.Extra(s, tier)...)
+	}
+	if tier == "thorough" && !quiet && overlay == nil || (tier == "thorough" && !quiet && plan.Gen) {
+		if len(thoroughHarnesses[id]) > 0 {
+			fr, runs := runThoroughHarnesses(id)
+			results = append(results, fr)
+			thoroughRuns = runs
+		}
 	}
 	SolveAll(s.R, results)
 
@@ -263,6 +282,16 @@ func runCheck(id, tier string, seed int, overlay map[string][]byte, quiet bool) 
 					}
 				}
 				break
+			}
+		}
+		if o.Kind == "bounded" {
+			// a bounded witness search of the thorough tier failed on the real code: the failing input is in the detail
+			suffix = ""
+			rep["failing_input"] = o.Detail
+			for _, hr := range thoroughRuns {
+				if strings.Contains(o.Name, "/"+hr.Harness+"[") {
+					rep["witness_search"] = hr
+				}
 			}
 		}
 		if suffix != "" && !quiet && o.Kind != "cover" {
@@ -449,6 +478,7 @@ func runCheck(id, tier string, seed int, overlay map[string][]byte, quiet bool) 
 		"explanation":              plan.Explain,
 		"failed_obligations":       failedNames,
 		"bounded_standins":         standins,
+		"bounded_witness_searches": thoroughRuns,
 		"solvers":                  s.R.BySolver,
 	}
 	if nObl == 0 {
